@@ -126,8 +126,51 @@ def module_state(P):
             mutable = isinstance(val, (ast.Dict, ast.List, ast.Set, ast.DictComp, ast.ListComp, ast.SetComp)) or (
                 isinstance(val, ast.Call) and (dotted_name(val.func) or "").split(".")[-1] in ("dict", "list", "set", "defaultdict", "OrderedDict", "deque"))
             if name in rebinding or mutable:
+                if name not in rebinding and _constant_table(P, mn, name):
+                    continue  # a literal table that the package only ever reads: a constant, not state
                 out[(mn, name)] = "rebound" if name in rebinding else "container"
     return out
+
+
+READ_METHODS = {"get", "items", "keys", "values", "index", "count", "copy"}
+
+
+def _constant_table(P, mn, name):
+    """module-level container used only through reads (subscript load, membership, iteration, len, read-only methods) in
+    its own module, and not imported by any other module: nothing can change it after import"""
+    for on, om in P.modules.items():
+        if on != mn and any(tgt == "%s.%s" % (mn, name) for tgt in om.imports.values()):
+            return False
+        for fn in [n for n in ast.walk(om.tree) if isinstance(n, ast.FunctionDef)]:
+            if any(tgt == "%s.%s" % (mn, name) for tgt in om.local_imports(fn).values()):
+                return False
+    m = P.modules[mn]
+    parents = {}
+    for n in ast.walk(m.tree):
+        for ch in ast.iter_child_nodes(n):
+            parents[ch] = n
+    for n in ast.walk(m.tree):
+        if not (isinstance(n, ast.Name) and n.id == name):
+            continue
+        p = parents.get(n)
+        if isinstance(n.ctx, ast.Store):
+            if isinstance(p, (ast.Assign, ast.AnnAssign)) and isinstance(parents.get(p), ast.Module):
+                continue  # the defining assignment
+            return False
+        if isinstance(n.ctx, ast.Del):
+            return False
+        if isinstance(p, ast.Subscript) and p.value is n and isinstance(p.ctx, ast.Load):
+            continue
+        if isinstance(p, ast.Compare) and n in p.comparators and all(isinstance(o, (ast.In, ast.NotIn)) for o in p.ops):
+            continue
+        if isinstance(p, (ast.For, ast.comprehension)) and p.iter is n:
+            continue
+        if isinstance(p, ast.Call) and n in p.args and (dotted_name(p.func) or "") in ("len", "sorted", "list", "tuple", "set", "frozenset", "dict", "iter", "enumerate", "max", "min", "sum", "any", "all"):
+            continue
+        if isinstance(p, ast.Attribute) and p.value is n and p.attr in READ_METHODS and isinstance(parents.get(p), ast.Call) and parents[p].func is p:
+            continue
+        return False
+    return True
 
 
 SETTINGS = {("bldfm.config", "NUM_THREADS"), ("bldfm.config", "MAX_WORKERS"), ("bldfm.config", "USE_CACHE"), ("bldfm.config", "OUTPUT_DIR")}
